@@ -235,7 +235,7 @@ Proof.
   cbn [uf_op].
   match goal with |- match ?f with _ => _ end = _ => destruct f as [[[sb1 sl1] [all|]] e] end.
   - destruct (c <=? 0); [reflexivity|]. destruct (_ =? 0); reflexivity.
-  - destruct e; reflexivity.
+  - destruct e as [er|]; [destruct (errk_eqb (ek er) KEOF)|]; reflexivity.
 Qed.
 
 (* one page from a handle whose listing has been filled (offset > 0): no inner call is made *)
